@@ -174,7 +174,8 @@ type VarDecl struct {
 	Tys   []Type
 	Vals  []Expr // empty for DeclVarType; one multi-valued call allowed
 	Form  int
-	Err   bool // a declared string type spelled "error"
+	Err   bool   // a declared string type spelled "error"
+	Reuse []bool // per name: true = the name exists in the same block already (legal with := next to a new name): plain assignment
 }
 type Assign struct {
 	Names []string
